@@ -17,7 +17,7 @@ EXPLANATION = (
     "the error types' own code (ArgParseError, ArgParseCauseBuffer) has every potential-panic site discharged by the buffer invariant len <= 128 (reviewed table); "
     "C20.2 the 128-byte cause buffer cannot overflow: the copy in write_str is dominated by len(s) <= CAP - self.len, both constructors return the fixed overflow error on failure, only write_str (and constant initialisers <= CAP) ever set the length, "
     "and the overflow message's declared length does not exceed its text; C20.3 every failure is a value: the parsers call neither exit nor panic, and -h/--help arms return an error value built from the help printer; "
-    "C20.4 sibling agreement between parser and help text: the option literals the generated decision tree accepts are exactly the option names its help printer lists plus -h/--help, and subcommand parsers accept every command name visible in the help text; C20.5 every argument is consumed or rejected: a derived ArgParse parser builds its Ok result only on a path on which args.next() returned None. "
+    "C20.4 sibling agreement between parser and help text: the option literals the generated decision tree accepts are exactly the option names its help printer lists plus -h/--help, and subcommand parsers accept exactly the command names the help text lists (including names passed to format_args! as arguments, read from the promoted constants' memory); C20.5 every argument is consumed or rejected: a derived ArgParse parser builds its Ok result only on a path on which args.next() returned None. "
     "NOT decided: round-tripping for every value assignment and option order, acceptance of exactly the declared grammar beyond the literal sets, user FromStr impls (outside; their errors are routed into the cause buffer).")
 ASSUMPTIONS = ["the family of derived types = the types in tiny-cli/tests/derive_test.rs", "invariant of ArgParseCauseBuffer: len <= 128 (established by C20.2)"]
 
@@ -92,18 +92,36 @@ def mentions_call(e, ctx, call_bbs):
 
 
 def help_text(prog, printer_ty):
+    """Every string constant the help printer's Display::fmt mentions: plain &str operands and strings reached through one
+    pointer inside a promoted constant (the `&&str` arguments of format_args!)."""
     texts = []
+
+    def visit(o):
+        if isinstance(o, dict):
+            if o.get("k") == "const":
+                if "bytes" in o:
+                    try:
+                        texts.append(bytes(o["bytes"]).decode())
+                    except Exception:
+                        pass
+                mem = o.get("mem")
+                for e in o.get("ptrs") or []:
+                    off = e["off"]
+                    n = int.from_bytes(bytes(mem[off + 8:off + 16]), "little") if mem and len(mem) >= off + 16 else len(e["mem"])
+                    try:
+                        texts.append(bytes(e["mem"][:n]).decode())
+                    except Exception:
+                        pass
+            for v in o.values():
+                visit(v)
+        elif isinstance(o, list):
+            for v in o:
+                visit(v)
     for p, f in prog.fns.items():
         if p.startswith(f"<{printer_ty} as core::fmt::Display>::fmt"):
-            ctx = prog.ctx(f)
-            for bb, t in ctx.cfg.calls():
-                for a in ctx.args(bb):
-                    for x in walk(a):
-                        if x[0] == "bytes":
-                            try:
-                                texts.append(bytes(x[1]).decode())
-                            except Exception:
-                                pass
+            for b in f["blocks"]:
+                visit(b["stmts"])
+                visit(b["term"])
     return "\n".join(texts)
 
 
@@ -181,11 +199,11 @@ def run_d(ck, prog):
                   detail=f"options accepted by the generated decision tree {sorted(accepted)} differ from the options its help text lists {sorted(listed)}")
         if text and p.endswith("::subcommand_parse"):
             listed = set(re.findall(r"^\s{2}([a-z][a-z0-9_-]*)(?=\s|$)", text.split("Commands:")[-1], re.M))
+            # names handed to format_args! as `&&str` arguments (commands with a doc line) arrive as bare strings
+            listed |= {t for t in text.split("\n") if re.fullmatch(r"[a-z][a-z0-9-]*", t)}
             accepted = set(strs)
-            # (the help text is assembled from several pieces, some through format_args! whose literals are not visible as
-            # plain constants: every command that IS visible in the help text must be accepted)
-            ck.ob("C20.4", f"{short}|parser-accepts-the-listed-commands", listed <= accepted and bool(accepted), fn=p,
-                  detail=f"commands listed in the help text {sorted(listed)} are not all accepted by the generated decision tree {sorted(accepted)}")
+            ck.ob("C20.4", f"{short}|parser-accepts-exactly-the-listed-commands", listed == accepted and bool(accepted), fn=p,
+                  detail=f"commands accepted by the generated decision tree {sorted(accepted)} differ from the commands its help text lists {sorted(listed)}")
     ck.floor("C20.4", "option/command literals", n_lit, 60)
     check_cli_types(ck, prog)
 
